@@ -211,15 +211,21 @@ func (c01) Eval(c *Chooser, env *Env) *Outcome {
 	toolsDesc := ""
 	if c.Weighted("world.tools", 1, 3) {
 		tm := &Tools{Broken: map[string]ToolFault{}}
-		kinds := []ToolFault{TFNone, TFNonzeroEmpty, TFCannotStart, TFKilled, TFGarbage, TFEmptyOK, TFJSONGarbage, TFNullElement, TFExit137, TFFlood}
+		kinds := []ToolFault{TFNone, TFNonzeroEmpty, TFCannotStart, TFKilled, TFGarbage, TFEmptyOK, TFJSONGarbage, TFNullElement, TFExit137}
 		if k := kinds[c.Int("fault.shellcheck", len(kinds))]; k != TFNone {
 			tm.Broken["shellcheck"] = k
 			toolsDesc += "shellcheck=" + string(k) + " "
 		}
-		pk := []ToolFault{TFNone, TFNonzeroEmpty, TFCannotStart, TFKilled, TFNoNewline, TFExit137, TFFlood}
+		pk := []ToolFault{TFNone, TFNonzeroEmpty, TFCannotStart, TFKilled, TFNoNewline, TFExit137}
 		if k := pk[c.Int("fault.pyflakes", len(pk))]; k != TFNone {
 			tm.Broken["pyflakes"] = k
 			toolsDesc += "pyflakes=" + string(k) + " "
+		}
+		if c.Weighted("fault.flood", 1, 60) {
+			// the first invocation of one tool floods its output (5 MiB, far more than a pipe holds)
+			ft := []string{"shellcheck", "pyflakes"}[c.Int("fault.floodtool", 2)]
+			tm.FloodOnce = map[string]bool{ft: true}
+			toolsDesc += ft + "=" + string(TFFlood) + "(first invocation) "
 		}
 		w.Tools = tm
 		flags = append(flags, "-no-color")
